@@ -29,9 +29,12 @@ MANIFEST = dict(
         "split, cover) states (ops hoys, oracle = definition on the region), ndHelperA/ndHelperB (hence sweepA, sweepB, the splits) are called directly with preset front "
         "numbers (ops dca/dcb, the real header compiled with access control lifted, oracle = the pre/postconditions of figures 2 and 7), and the sweeps of "
         "HypervolumeCalculator3D, HOY, HypervolumeContribution3D and the sorts are observed on every prefix of the input in sweep order."),
-  note=TRUST + "executable models tied by exact correspondence + oracle only (no theorem model = spec): HypervolumeCalculatorMDHOY (Model/HOY.lean; therefore the front end and "
-       "HypervolumeContributionMD in exactly 4 objectives are `_partial`), HypervolumeContribution3D (Model/Contrib3D.lean: x-y front, box lists, cutBoxesOnTheLeft/Right; compared "
-       "with hvSpec S - hvSpec (S without p) on every run). These routines return only their result, so the tie of their internal states to the C++ is through the results. "
+  note=TRUST + "only partially proved (`_partial` theorems in Props/C13.lean; tied by exact correspondence + oracle on every run): (1) HypervolumeCalculatorMDHOY - cover scan, "
+       "pile/trellis case, split with an in-region bound and the entry are proved; hvHoy = hvSpec holds for every run accepted by the Boolean replay `hoyOk` (depth budget not exhausted, "
+       "every bound inside its region); the C++ can choose a bound outside the region (stale median, reachable from operator(), corpus/C13/subroutines.txt) - observed harmless, the "
+       "signed-extent argument is not formalised; hence the front end and HypervolumeContributionMD in exactly 4 objectives are `_partial`; (2) HypervolumeContribution3D - index part, "
+       "boundary points, reduction of the operator to the inner sweep, slicing by height, conservation laws of both cuts and the geometry of new boxes are proved; the loop invariant of "
+       "the sweep (`SweepCorrect`) is open, the operator theorem is stated from it. "
        "HypervolumeContributionMD computes exp(sum(log(ref-p))): its results are compared after rounding to the nearest integer (tolerance 1e-6), everything else exactly. "
        "Theorems are about integer coordinates and lifted to rationals by the common-denominator argument (Lemmas/Scale.lean, Lemmas/RatLift.lean); the C++ runs on doubles, the "
        "correspondence uses integer-valued doubles. The 1e-10 tolerances in upperEnvelope are modelled as exact comparisons (quotients of small integers). Finding C13-SSP-LEXLESS (F-C13-4: comparator `f2 < rhs.f1`, std::sort overflow with > 16 points "
@@ -49,7 +52,7 @@ FINISH = dict(level="proof",
                    "reference points weakly above all points; "
                    "a case is non-trivial if it has >= 3 points and (for sort/hv) at least one tie or dominated pair; distinct = distinct op text")
 
-LAKE_TARGETS = ["SharkVerif.Props.C13", "drv_c13"]   # Props imports Lemmas/{FastSort,Hypervolume,HV3D,Contrib,DCFront,Subset2D,RatLift}
+LAKE_TARGETS = ["SharkVerif.Props.C13", "drv_c13"]   # Props imports Lemmas/{FastSort,Hypervolume,HV3D,Contrib,DCFront,Subset2D,RatLift,Contrib3DE,HOY}
 REPO_SOURCES = ["src/Core/Random.cpp"]
 
 
